@@ -5,11 +5,11 @@ use serde_json::{json, Value};
 use std::collections::HashSet;
 
 pub fn run(tier: Tier, seed: u64, ev: &mut Evidence) -> Vec<Violation> {
-    let (n_g01, n_tpl) = match tier {
-        Tier::Quick => (700u64, 500u64),
-        Tier::Thorough => (40_000u64, 20_000u64),
+    let (n_g01, n_tpl, n_g05, n_g02) = match tier {
+        Tier::Quick => (500u64, 450u64, 300u64, 150u64),
+        Tier::Thorough => (40_000u64, 20_000u64, 20_000u64, 8_000u64),
     };
-    ev.rule = "workloads: G01 sessions and allocation-heavy templates (lists, vectors, strings+string->symbol, closures, \
+    ev.rule = "workloads: G01 sessions, G05 continuation sessions, G02 scope skeletons and allocation-heavy templates (lists, vectors, strings+string->symbol, closures, \
                continuations, eval, variadic/apply, deep recursion, heap growth, long procedures later redefined, promises); per workload \
                3 collection schedules drawn from {every k (1..16), every instruction where affordable, Bernoulli 1/2 1/10 1/100, bursts \
                after CONS/CALL/CLOSURE/ENTER/TCALL/VARARG/VPUSHACC, production policy at random cadence, sparse}, each optionally also \
@@ -21,6 +21,8 @@ pub fn run(tier: Tier, seed: u64, ev: &mut Evidence) -> Vec<Violation> {
     let mut contexts = HashSet::new();
     let mut v = batch(Attribution::C03, seed, n_g01, workload_g01, 3, ev, &mut distinct, &mut contexts, 0);
     v.extend(batch(Attribution::C03, seed, n_tpl, workload_templates, 3, ev, &mut distinct, &mut contexts, 1_000_000));
+    v.extend(batch(Attribution::C03, seed, n_g05, workload_g05, 3, ev, &mut distinct, &mut contexts, 2_000_000));
+    v.extend(batch(Attribution::C03, seed, n_g02, workload_g02, 3, ev, &mut distinct, &mut contexts, 3_000_000));
     ev.distinct_nontrivial = distinct.len() as u64;
     ev.extra.insert("distinct_contexts".into(), json!(contexts.len()));
     ev.extra.insert(
